@@ -11,26 +11,43 @@ prefix: {"ev": "call", ...} per finished call and {"ev": "done"} at the end.
 Scenario:
   {"n_jobs": 2|3, "managed": bool, "calls": [
       {"n_tasks": int, "faults": {"<task index>": fault-dict}, "work": seconds, "pre_dispatch": "all"|null,
-       "pre":     null | {"kind": "idle", "victims": k, "how": SIG, "settle": seconds},
-       "startup": null | {"at_item": j, "victims": k, "how": SIG}}
+       "pre":     null | {"kind": "idle", "victims": k, "how": SIG, "settle": seconds, "sync": SYNC|null},
+       "startup": null | {"at_item": j, "victims": k, "how": SIG, "sync": SYNC|null}}
   ]}
+
+SYNC = {"mgr": "<step>:<enter|exit>", "caller": "call-start"|"configured"|"submit1"|"submitted-all"|"timeout"}
+places the CALLER thread's steps of the call against the MANAGER thread's steps (both live in this process, so the
+interleaving is ours to choose, no source change): after the kill the manager thread is held at the given point of
+its death handling — `wait_result_broken_or_wakeup`, `terminate_broken`, `flag_as_broken`, `kill_workers`,
+`join_executor_internals`, `process_result_item`, `add_call_item_to_queue` (method wrappers installed in THIS
+process only) — until the caller has reached its own point (`LokyBackend.configure` returned, the first
+`executor.submit` returned or raised, the input generator is exhausted), or HOLD seconds have passed (the caller may
+itself be waiting for the manager, e.g. `shutdown(wait=True)`; the hold is bounded so the harness cannot deadlock).
+
+The manager thread lives in this process: any exception escaping a thread is reported
+({"ev": "thread-exception", "thread": name, "exc": class}); when it is the executor manager thread the scenario is
+given a few seconds and then aborted ({"ev": "abort"}) — nothing will resolve the futures any more.
 """
 
 import json
 import os
 import resource
-import signal
 import sys
+import threading
 import time
 
 import c10_faults as F
 
-SIGS = {"SIGKILL": signal.SIGKILL, "SIGTERM": signal.SIGTERM, "SIGSEGV": signal.SIGSEGV}
+HOLD = 1.2  # s: longest time the manager thread is held at a sync point
+REACH = 2.5  # s: longest time the caller waits for the manager to reach its sync point
+
+_out_lock = threading.Lock()
 
 
 def emit(d):
-    sys.stdout.write(json.dumps(d) + "\n")
-    sys.stdout.flush()
+    with _out_lock:
+        sys.stdout.write(json.dumps(d) + "\n")
+        sys.stdout.flush()
 
 
 def executor_view():
@@ -52,9 +69,10 @@ KILLED = []  # pids this process has sent a fatal signal to
 
 
 def kill_pids(pids, how):
+    n = F.signum(how)
     for p in pids:
         try:
-            os.kill(p, SIGS[how])
+            os.kill(p, n)
             KILLED.append(p)
         except ProcessLookupError:
             pass
@@ -75,12 +93,132 @@ def survivors():
     return out
 
 
+# ----------------------------------------------------------------------------- thread health
+
+
+def install_excepthook():
+    prev = threading.excepthook
+
+    def hook(args):
+        name = args.thread.name if args.thread is not None else "?"
+        emit(dict(ev="thread-exception", thread=name, exc=args.exc_type.__name__, msg=str(args.exc_value)[:200]))
+        if name.startswith("ExecutorManagerThread"):
+            def abort():
+                time.sleep(4.0)
+                emit(dict(ev="abort", why="executor manager thread died", survivors=survivors()))
+                os._exit(70)
+
+            threading.Thread(target=abort, daemon=True, name="c10-abort").start()
+        prev(args)
+
+    threading.excepthook = hook
+
+
+# ----------------------------------------------------------------------------- manager / caller placement
+
+MGR_STEPS = ["add_call_item_to_queue", "wait_result_broken_or_wakeup", "process_result_item", "terminate_broken",
+             "kill_workers", "join_executor_internals"]
+
+
+class Sync:
+    """One hand-off per arming: manager held at `mgr_point` until the caller passes `caller_point` (or HOLD)."""
+
+    def __init__(self):
+        self.mgr_point = None
+        self.caller_point = None
+        self.at_point = threading.Event()
+        self.release = threading.Event()
+        self.used = False
+        self.lock = threading.Lock()
+
+    def arm(self, spec):
+        with self.lock:
+            self.mgr_point, self.caller_point = spec["mgr"], spec["caller"]
+            self.at_point.clear()
+            self.release.clear()
+            self.used = False
+
+    def disarm(self):
+        with self.lock:
+            self.mgr_point = None
+        self.release.set()
+
+    def mgr_reach(self, point):
+        if self.mgr_point != point or not threading.current_thread().name.startswith("ExecutorManagerThread"):
+            return
+        with self.lock:
+            if self.used or self.mgr_point != point:
+                return
+            self.used = True
+        self.at_point.set()
+        t0 = time.time()
+        got = self.release.wait(HOLD)
+        emit(dict(ev="sync-held", point=point, released_by_caller=bool(got), held=round(time.time() - t0, 3)))
+
+    def caller_reach(self, point):
+        if self.mgr_point is not None and self.caller_point == point:
+            self.release.set()
+
+
+SYNC = Sync()
+
+
+def install_sync_hooks():
+    from joblib import _parallel_backends as pb
+    from joblib.externals.loky import process_executor as pe
+    from joblib.externals.loky import reusable_executor as rx
+
+    def wrap_mgr(cls, name, label):
+        orig = getattr(cls, name)
+
+        def w(self, *a, **k):
+            SYNC.mgr_reach(label + ":enter")
+            try:
+                return orig(self, *a, **k)
+            finally:
+                SYNC.mgr_reach(label + ":exit")
+
+        w.__name__ = name
+        setattr(cls, name, w)
+
+    for step in MGR_STEPS:
+        wrap_mgr(pe._ExecutorManagerThread, step, step)
+    wrap_mgr(pe._ExecutorFlags, "flag_as_broken", "flag_as_broken")
+
+    orig_conf = pb.LokyBackend.configure
+
+    def configure(self, *a, **k):
+        try:
+            return orig_conf(self, *a, **k)
+        finally:
+            SYNC.caller_reach("configured")
+
+    pb.LokyBackend.configure = configure
+
+    orig_submit = rx._ReusablePoolExecutor.submit
+
+    def submit(self, *a, **k):
+        try:
+            return orig_submit(self, *a, **k)
+        finally:
+            SYNC.caller_reach("submit1")
+
+    rx._ReusablePoolExecutor.submit = submit
+
+
+# ----------------------------------------------------------------------------- main
+
+
 def main():
     resource.setrlimit(resource.RLIMIT_CORE, (0, 0))
     sc = json.loads(sys.argv[1])
     import joblib
     from joblib import Parallel, delayed
 
+    install_excepthook()
+    uses_sync = any((c.get(k) or {}).get("sync") for c in sc["calls"] for k in ("pre", "startup"))
+    if uses_sync:
+        install_sync_hooks()
     emit(dict(ev="start", joblib=os.path.dirname(joblib.__file__), pid=os.getpid()))
     parent = os.getpid()
     n_jobs = sc["n_jobs"]
@@ -89,10 +227,18 @@ def main():
     def one_call(par, ci, c):
         nonlocal last_pids
         pre = c.get("pre")
+        armed = False
         if pre and pre["kind"] == "idle":
             victims = last_pids[: pre["victims"]]
+            if pre.get("sync") and victims:
+                SYNC.arm(pre["sync"])
+                armed = True
             kill_pids(victims, pre["how"])
             emit(dict(ev="idle-kill", call=ci, n=len(victims)))
+            if armed:
+                reached = SYNC.at_point.wait(REACH)
+                emit(dict(ev="sync-reached", call=ci, point=pre["sync"]["mgr"], reached=bool(reached)))
+                SYNC.caller_reach("call-start")
             if pre.get("settle"):
                 time.sleep(pre["settle"])
         faults = {int(k): v for k, v in (c.get("faults") or {}).items()}
@@ -100,16 +246,27 @@ def main():
         startup = c.get("startup")
 
         def gen():
+            nonlocal armed
             for i in range(c["n_tasks"]):
                 if startup and i == startup["at_item"]:
                     v = executor_view()
-                    kill_pids(v["pids"][: startup["victims"]], startup["how"])
-                    emit(dict(ev="startup-kill", call=ci, n=min(startup["victims"], len(v["pids"]))))
+                    victims = v["pids"][: startup["victims"]]
+                    if startup.get("sync") and victims:
+                        SYNC.arm(startup["sync"])
+                        armed = True
+                    kill_pids(victims, startup["how"])
+                    emit(dict(ev="startup-kill", call=ci, n=len(victims)))
+                    if startup.get("sync") and victims:
+                        reached = SYNC.at_point.wait(REACH)
+                        emit(dict(ev="sync-reached", call=ci, point=startup["sync"]["mgr"], reached=bool(reached)))
+                        SYNC.caller_reach("call-start")
+                        SYNC.caller_reach("configured")
                     if startup.get("settle"):
                         time.sleep(startup["settle"])
                 f = dict(faults.get(i) or {})
                 f.setdefault("work", work)
                 yield delayed(F.task)(ci, F.Arg(i, f, parent))
+            SYNC.caller_reach("submitted-all")
 
         before = executor_view()
         t0 = time.time()
@@ -120,6 +277,8 @@ def main():
             out = None
             outcome = "exc:" + type(e).__name__
         dt = time.time() - t0
+        if armed:
+            SYNC.disarm()
         after = executor_view()
         rec = dict(ev="call", call=ci, outcome=outcome, elapsed=round(dt, 3), exec_before=before["id"],
                    exec_after=after["id"], broken_after=after["broken"], shutdown_after=after["shutdown"])
@@ -130,8 +289,6 @@ def main():
             rec["n_results"] = len(out)
             rec["results_correct"] = bool(ok_shape and got == exp)
             rec["task_pids"] = sorted({t[1] for t in out}) if ok_shape else []
-        # which executor served the call: the singleton right after configure == `before` for a managed
-        # backend; for an unmanaged one `after` (configure ran inside the call and terminate() keeps it)
         last_pids = [p for p in after["pids"]]
         rec["live_pids"] = last_pids
         rec["survivors"] = survivors()
